@@ -398,14 +398,15 @@ class VQESolver:
                                                               up_then_down=self.up_then_down,
                                                               spin=spin)
 
-        self.ansatz.update_var_params(var_params)
-        circuit = ref_state + self.ansatz.circuit
-        if self.projective_circuit:
-            circuit += self.projective_circuit
-        expectation = self.backend.get_expectation_value(self.qubit_hamiltonian, circuit, **self.simulate_options)
-
-        # Restore the current target hamiltonian
-        self.qubit_hamiltonian = tmp_hamiltonian
+        try:
+            self.ansatz.update_var_params(var_params)
+            circuit = ref_state + self.ansatz.circuit
+            if self.projective_circuit:
+                circuit += self.projective_circuit
+            expectation = self.backend.get_expectation_value(self.qubit_hamiltonian, circuit, **self.simulate_options)
+        finally:
+            # Restore the current target hamiltonian, also when the evaluation fails
+            self.qubit_hamiltonian = tmp_hamiltonian
 
         return expectation
 
